@@ -510,6 +510,12 @@ def run(tier: str, seed: int) -> int:
     # TLC against spec/Trace_Hooks.tla: Trajectory, Windows
     from .. import hooktrace as _ht
     _ht.check(run_, PID, ['Trajectory', 'Windows'], ['tests/test_utils.py', 'tests/test_substack_trjs.py', 'tests/test_repeated_stepper.py', 'tests/test_forced_stepper.py'], {'ev': 'Trajectory', 'op': 'rollout', 'n': 3, 'include_init': True, 'lead': [3], 'struct_same': True, 'outcome': 'returned'})
+    # the composed machine (spec/Session.tla): multi-step API sessions generated by TLC -simulate, replayed call by call; this check
+    # reports the mismatches of the operations it owns (advectn)
+    from .. import session
+    import jax.numpy as _jnp
+    import exponax as _ex
+    session.run_for(run_, tier, seed, _ex, _jnp, ['advectn'], PID)
     return run_.finish()
 
 
